@@ -4,8 +4,8 @@
 // holds (and <=, >=, != follow); the order is transitive; and every consumer agrees with `=`: two rows fall into one GROUP BY
 // group, are deduplicated by DISTINCT and are paired by a JOIN exactly when WHERE calls them equal.  Numbers compare by
 // numeric value.  Grid: every ordered pair and every triple over 12 REAL values (signed zeros, adjacent doubles, 0.1+0.2,
-// infinities as far as the REAL parser yields them, NaN), 9 INT values (64-bit ends, neighbours of 2^53), 7 TEXT values
-// (empty, prefixes, case, non-ASCII) and 4 TIMESTAMP values.
+// infinities as far as the REAL parser yields them, NaN), 9 INT values (64-bit ends, neighbours of 2^53), 13 TEXT values
+// (empty, prefixes, case, non-ASCII, texts that look like numbers: 7, 007, +7, 10, 1x, 2) and 4 TIMESTAMP values.
 // Also: a text literal on either side of every TIMESTAMP comparison, also for timestamps with a fraction of a second (5 instants within two seconds x 3 literals,
 // GROUP BY / DISTINCT / WHERE over them); PERCENTILE / MIN / MAX shown by one engine on every
 // refresh against the batch value, over sequences of 3..4 lines of a 6-line pool.
@@ -36,7 +36,7 @@ fn verif_grid() {
     let kinds = vec![
         Kind { name: "real", ty: "REAL", pattern: "[^|]*", values: vec!["0.0", "-0.0", "1.0", "1.0000000000000002", "0.9999999999999999", "-1.5", "1e308", "-1e308", "5e-324", "0.30000000000000004", "0.3", "NaN"] },
         Kind { name: "int", ty: "INT", pattern: "[^|]*", values: vec!["0", "-1", "1", "9223372036854775807", "9223372036854775806", "-9223372036854775808", "9007199254740992", "9007199254740993", "-9007199254740993"] },
-        Kind { name: "text", ty: "TEXT", pattern: "[^|]*", values: vec!["", "a", "ab", "B", "b", "é", "日本"] },
+        Kind { name: "text", ty: "TEXT", pattern: "[^|]*", values: vec!["", "a", "ab", "B", "b", "é", "日本", "7", "007", "+7", "10", "1x", "2"] },
         Kind { name: "timestamp", ty: "TIMESTAMP", pattern: "[^|]*", values: vec!["2020-01-01 00:00:00", "2020-01-01 00:00:01", "1999-12-31 23:59:59", "2038-01-19 03:14:08"] },
     ];
     for kind in &kinds {
